@@ -2,7 +2,7 @@ import DPProofs.C01String
 import DPProofs.C07
 /-!
 # C07 at string level (GENERATED text, one block per order × separator, same script): three numeric fields written in the order `O`
-with `/` or `-` between them are read as exactly that day, month and year — from the characters, for every valid date.
+with `/`, `-` or a space between them are read as exactly that day, month and year — from the characters, for every valid date.
 -/
 namespace DP
 
@@ -34,7 +34,7 @@ theorem c07_d_m_y_slash (st : PSettings) (hst : st.order = [.day, .month, .year]
   have d1 : d / 10 < 10 := by omega
   have d2 : d % 10 < 10 := by omega
   have htok : tokenize (renderOrder [.day, .month, .year] '/' y m d) = .ok [(pad2c d, 0), (['/'], 2), (pad2c m, 0), (['/'], 2), (pad4c y, 0)] := by
-    simp [tokenize, tokGo, renderOrder, fieldText, pad4c, pad2c, tkCls_dch, tkCls_dash, tkCls_slash, y1, y2, y3, y4, m1, m2, d1, d2]
+    simp [tokenize, tokGo, renderOrder, fieldText, pad4c, pad2c, tkCls_dch, tkCls_dash, tkCls_slash, tkCls_space, y1, y2, y3, y4, m1, m2, d1, d2]
   have hno : ∀ t ∈ [(pad2c d, 0), (['/'], 2), (pad2c m, 0), (['/'], 2), (pad4c y, 0)], ¬ '.' ∈ (t : List Char × Nat).1 := by
     intro t ht
     simp only [List.mem_cons, List.not_mem_nil, or_false] at ht
@@ -51,7 +51,7 @@ theorem c07_d_m_y_slash (st : PSettings) (hst : st.order = [.day, .month, .year]
       dotAfter_false _ (fun t ht => hno t (List.mem_cons_of_mem _ ht)) _⟩
   unfold absParse
   rw [htok]
-  simp only [bind, Except.bind, List.map_cons, List.map_nil, stripWs_pad4 y hy, stripWs_pad2 m hm, stripWs_pad2 d hdd, stripWs_dash, stripWs_slash]
+  simp only [bind, Except.bind, List.map_cons, List.map_nil, stripWs_pad4 y hy, stripWs_pad2 m hm, stripWs_pad2 d hdd, stripWs_dash, stripWs_slash, stripWs_space]
   rw [hcls]
   exact C07_order_decides st _ (by simp [allOrders]) hst y m d hd.y1 hd.y2 hd.m1 hd.m2 hd.d1 hd.d2 (pad4c y) (pad2c m) (pad2c d) rfl
     (by simp [pad2c]) (by simp [pad2c]) true true (fun _ => rfl) (fun _ => rfl) (micOf y m d) false
@@ -70,7 +70,7 @@ theorem c07_d_m_y_dash (st : PSettings) (hst : st.order = [.day, .month, .year])
   have d1 : d / 10 < 10 := by omega
   have d2 : d % 10 < 10 := by omega
   have htok : tokenize (renderOrder [.day, .month, .year] '-' y m d) = .ok [(pad2c d, 0), (['-'], 2), (pad2c m, 0), (['-'], 2), (pad4c y, 0)] := by
-    simp [tokenize, tokGo, renderOrder, fieldText, pad4c, pad2c, tkCls_dch, tkCls_dash, tkCls_slash, y1, y2, y3, y4, m1, m2, d1, d2]
+    simp [tokenize, tokGo, renderOrder, fieldText, pad4c, pad2c, tkCls_dch, tkCls_dash, tkCls_slash, tkCls_space, y1, y2, y3, y4, m1, m2, d1, d2]
   have hno : ∀ t ∈ [(pad2c d, 0), (['-'], 2), (pad2c m, 0), (['-'], 2), (pad4c y, 0)], ¬ '.' ∈ (t : List Char × Nat).1 := by
     intro t ht
     simp only [List.mem_cons, List.not_mem_nil, or_false] at ht
@@ -87,7 +87,43 @@ theorem c07_d_m_y_dash (st : PSettings) (hst : st.order = [.day, .month, .year])
       dotAfter_false _ (fun t ht => hno t (List.mem_cons_of_mem _ ht)) _⟩
   unfold absParse
   rw [htok]
-  simp only [bind, Except.bind, List.map_cons, List.map_nil, stripWs_pad4 y hy, stripWs_pad2 m hm, stripWs_pad2 d hdd, stripWs_dash, stripWs_slash]
+  simp only [bind, Except.bind, List.map_cons, List.map_nil, stripWs_pad4 y hy, stripWs_pad2 m hm, stripWs_pad2 d hdd, stripWs_dash, stripWs_slash, stripWs_space]
+  rw [hcls]
+  exact C07_order_decides st _ (by simp [allOrders]) hst y m d hd.y1 hd.y2 hd.m1 hd.m2 hd.d1 hd.d2 (pad4c y) (pad2c m) (pad2c d) rfl
+    (by simp [pad2c]) (by simp [pad2c]) true true (fun _ => rfl) (fun _ => rfl) (micOf y m d) false
+
+theorem c07_d_m_y_space (st : PSettings) (hst : st.order = [.day, .month, .year]) (y m d : Nat) (hd : DateOk y m d) :
+    absParse st (renderOrder [.day, .month, .year] ' ' y m d) = .ok ({ y := y, mo := m, d := d }, .day) := by
+  have hy : y ≤ 9999 := hd.y2
+  have hm : m < 100 := by have := hd.m2; omega
+  have hdd : d < 100 := by have := hd.d2; have := dim_le_31 y m; omega
+  have y1 : y / 1000 < 10 := by omega
+  have y2 : y / 100 % 10 < 10 := by omega
+  have y3 : y / 10 % 10 < 10 := by omega
+  have y4 : y % 10 < 10 := by omega
+  have m1 : m / 10 < 10 := by omega
+  have m2 : m % 10 < 10 := by omega
+  have d1 : d / 10 < 10 := by omega
+  have d2 : d % 10 < 10 := by omega
+  have htok : tokenize (renderOrder [.day, .month, .year] ' ' y m d) = .ok [(pad2c d, 0), ([' '], 2), (pad2c m, 0), ([' '], 2), (pad4c y, 0)] := by
+    simp [tokenize, tokGo, renderOrder, fieldText, pad4c, pad2c, tkCls_dch, tkCls_dash, tkCls_slash, tkCls_space, y1, y2, y3, y4, m1, m2, d1, d2]
+  have hno : ∀ t ∈ [(pad2c d, 0), ([], 2), (pad2c m, 0), ([], 2), (pad4c y, 0)], ¬ '.' ∈ (t : List Char × Nat).1 := by
+    intro t ht
+    simp only [List.mem_cons, List.not_mem_nil, or_false] at ht
+    rcases ht with rfl | rfl | rfl | rfl | rfl <;>
+      first | exact dot_pad4 y hy | exact colon_pad2 m hm '.' (by simp) | exact colon_pad2 d hdd '.' (by simp) | simp
+  have hcls : classify #[(pad2c d, 0), ([], 2), (pad2c m, 0), ([], 2), (pad4c y, 0)] =
+      [.day, .month, .year].map (fun c => fieldTI c (pad4c y) (pad2c m) (pad2c d) y m d true true (micOf y m d) false) := by
+    simp [classify, fieldTI, micOf, fieldText, tiYear4, tiSmall, fmt_m, fmt_d, fmt_y, fmt_Y, dirNum_m2, dirNum_d2, dirNum_y2, dirNum_Y2, dirNum_Y4,
+      dirNum_four_none, hy, hm, hdd, List.zipIdx,
+      allAscii_pad4 y hy, natOfAscii_pad4 y hy, micro_pad4 y hy, merid_pad4 y hy, skip_pad4 y hy, colon_pad4 y hy,
+      allAscii_pad2 m hm, natOfAscii_pad2 m hm, micro_pad2 m hm, merid_pad2 m hm, skip_pad2 m hm, colon_pad2 m hm ':' (by simp),
+      allAscii_pad2 d hdd, natOfAscii_pad2 d hdd, micro_pad2 d hdd, merid_pad2 d hdd, skip_pad2 d hdd, colon_pad2 d hdd ':' (by simp)]
+    exact ⟨dotAfter_false _ (fun t ht => hno t (List.mem_cons_of_mem _ ht)) _, dotAfter_false _ (fun t ht => hno t (List.mem_cons_of_mem _ ht)) _,
+      dotAfter_false _ (fun t ht => hno t (List.mem_cons_of_mem _ ht)) _⟩
+  unfold absParse
+  rw [htok]
+  simp only [bind, Except.bind, List.map_cons, List.map_nil, stripWs_pad4 y hy, stripWs_pad2 m hm, stripWs_pad2 d hdd, stripWs_dash, stripWs_slash, stripWs_space]
   rw [hcls]
   exact C07_order_decides st _ (by simp [allOrders]) hst y m d hd.y1 hd.y2 hd.m1 hd.m2 hd.d1 hd.d2 (pad4c y) (pad2c m) (pad2c d) rfl
     (by simp [pad2c]) (by simp [pad2c]) true true (fun _ => rfl) (fun _ => rfl) (micOf y m d) false
@@ -106,7 +142,7 @@ theorem c07_d_y_m_slash (st : PSettings) (hst : st.order = [.day, .year, .month]
   have d1 : d / 10 < 10 := by omega
   have d2 : d % 10 < 10 := by omega
   have htok : tokenize (renderOrder [.day, .year, .month] '/' y m d) = .ok [(pad2c d, 0), (['/'], 2), (pad4c y, 0), (['/'], 2), (pad2c m, 0)] := by
-    simp [tokenize, tokGo, renderOrder, fieldText, pad4c, pad2c, tkCls_dch, tkCls_dash, tkCls_slash, y1, y2, y3, y4, m1, m2, d1, d2]
+    simp [tokenize, tokGo, renderOrder, fieldText, pad4c, pad2c, tkCls_dch, tkCls_dash, tkCls_slash, tkCls_space, y1, y2, y3, y4, m1, m2, d1, d2]
   have hno : ∀ t ∈ [(pad2c d, 0), (['/'], 2), (pad4c y, 0), (['/'], 2), (pad2c m, 0)], ¬ '.' ∈ (t : List Char × Nat).1 := by
     intro t ht
     simp only [List.mem_cons, List.not_mem_nil, or_false] at ht
@@ -123,7 +159,7 @@ theorem c07_d_y_m_slash (st : PSettings) (hst : st.order = [.day, .year, .month]
       dotAfter_false _ (fun t ht => hno t (List.mem_cons_of_mem _ ht)) _⟩
   unfold absParse
   rw [htok]
-  simp only [bind, Except.bind, List.map_cons, List.map_nil, stripWs_pad4 y hy, stripWs_pad2 m hm, stripWs_pad2 d hdd, stripWs_dash, stripWs_slash]
+  simp only [bind, Except.bind, List.map_cons, List.map_nil, stripWs_pad4 y hy, stripWs_pad2 m hm, stripWs_pad2 d hdd, stripWs_dash, stripWs_slash, stripWs_space]
   rw [hcls]
   exact C07_order_decides st _ (by simp [allOrders]) hst y m d hd.y1 hd.y2 hd.m1 hd.m2 hd.d1 hd.d2 (pad4c y) (pad2c m) (pad2c d) rfl
     (by simp [pad2c]) (by simp [pad2c]) true true (fun _ => rfl) (fun _ => rfl) (micOf y m d) false
@@ -142,7 +178,7 @@ theorem c07_d_y_m_dash (st : PSettings) (hst : st.order = [.day, .year, .month])
   have d1 : d / 10 < 10 := by omega
   have d2 : d % 10 < 10 := by omega
   have htok : tokenize (renderOrder [.day, .year, .month] '-' y m d) = .ok [(pad2c d, 0), (['-'], 2), (pad4c y, 0), (['-'], 2), (pad2c m, 0)] := by
-    simp [tokenize, tokGo, renderOrder, fieldText, pad4c, pad2c, tkCls_dch, tkCls_dash, tkCls_slash, y1, y2, y3, y4, m1, m2, d1, d2]
+    simp [tokenize, tokGo, renderOrder, fieldText, pad4c, pad2c, tkCls_dch, tkCls_dash, tkCls_slash, tkCls_space, y1, y2, y3, y4, m1, m2, d1, d2]
   have hno : ∀ t ∈ [(pad2c d, 0), (['-'], 2), (pad4c y, 0), (['-'], 2), (pad2c m, 0)], ¬ '.' ∈ (t : List Char × Nat).1 := by
     intro t ht
     simp only [List.mem_cons, List.not_mem_nil, or_false] at ht
@@ -159,7 +195,43 @@ theorem c07_d_y_m_dash (st : PSettings) (hst : st.order = [.day, .year, .month])
       dotAfter_false _ (fun t ht => hno t (List.mem_cons_of_mem _ ht)) _⟩
   unfold absParse
   rw [htok]
-  simp only [bind, Except.bind, List.map_cons, List.map_nil, stripWs_pad4 y hy, stripWs_pad2 m hm, stripWs_pad2 d hdd, stripWs_dash, stripWs_slash]
+  simp only [bind, Except.bind, List.map_cons, List.map_nil, stripWs_pad4 y hy, stripWs_pad2 m hm, stripWs_pad2 d hdd, stripWs_dash, stripWs_slash, stripWs_space]
+  rw [hcls]
+  exact C07_order_decides st _ (by simp [allOrders]) hst y m d hd.y1 hd.y2 hd.m1 hd.m2 hd.d1 hd.d2 (pad4c y) (pad2c m) (pad2c d) rfl
+    (by simp [pad2c]) (by simp [pad2c]) true true (fun _ => rfl) (fun _ => rfl) (micOf y m d) false
+
+theorem c07_d_y_m_space (st : PSettings) (hst : st.order = [.day, .year, .month]) (y m d : Nat) (hd : DateOk y m d) :
+    absParse st (renderOrder [.day, .year, .month] ' ' y m d) = .ok ({ y := y, mo := m, d := d }, .day) := by
+  have hy : y ≤ 9999 := hd.y2
+  have hm : m < 100 := by have := hd.m2; omega
+  have hdd : d < 100 := by have := hd.d2; have := dim_le_31 y m; omega
+  have y1 : y / 1000 < 10 := by omega
+  have y2 : y / 100 % 10 < 10 := by omega
+  have y3 : y / 10 % 10 < 10 := by omega
+  have y4 : y % 10 < 10 := by omega
+  have m1 : m / 10 < 10 := by omega
+  have m2 : m % 10 < 10 := by omega
+  have d1 : d / 10 < 10 := by omega
+  have d2 : d % 10 < 10 := by omega
+  have htok : tokenize (renderOrder [.day, .year, .month] ' ' y m d) = .ok [(pad2c d, 0), ([' '], 2), (pad4c y, 0), ([' '], 2), (pad2c m, 0)] := by
+    simp [tokenize, tokGo, renderOrder, fieldText, pad4c, pad2c, tkCls_dch, tkCls_dash, tkCls_slash, tkCls_space, y1, y2, y3, y4, m1, m2, d1, d2]
+  have hno : ∀ t ∈ [(pad2c d, 0), ([], 2), (pad4c y, 0), ([], 2), (pad2c m, 0)], ¬ '.' ∈ (t : List Char × Nat).1 := by
+    intro t ht
+    simp only [List.mem_cons, List.not_mem_nil, or_false] at ht
+    rcases ht with rfl | rfl | rfl | rfl | rfl <;>
+      first | exact dot_pad4 y hy | exact colon_pad2 m hm '.' (by simp) | exact colon_pad2 d hdd '.' (by simp) | simp
+  have hcls : classify #[(pad2c d, 0), ([], 2), (pad4c y, 0), ([], 2), (pad2c m, 0)] =
+      [.day, .year, .month].map (fun c => fieldTI c (pad4c y) (pad2c m) (pad2c d) y m d true true (micOf y m d) false) := by
+    simp [classify, fieldTI, micOf, fieldText, tiYear4, tiSmall, fmt_m, fmt_d, fmt_y, fmt_Y, dirNum_m2, dirNum_d2, dirNum_y2, dirNum_Y2, dirNum_Y4,
+      dirNum_four_none, hy, hm, hdd, List.zipIdx,
+      allAscii_pad4 y hy, natOfAscii_pad4 y hy, micro_pad4 y hy, merid_pad4 y hy, skip_pad4 y hy, colon_pad4 y hy,
+      allAscii_pad2 m hm, natOfAscii_pad2 m hm, micro_pad2 m hm, merid_pad2 m hm, skip_pad2 m hm, colon_pad2 m hm ':' (by simp),
+      allAscii_pad2 d hdd, natOfAscii_pad2 d hdd, micro_pad2 d hdd, merid_pad2 d hdd, skip_pad2 d hdd, colon_pad2 d hdd ':' (by simp)]
+    exact ⟨dotAfter_false _ (fun t ht => hno t (List.mem_cons_of_mem _ ht)) _, dotAfter_false _ (fun t ht => hno t (List.mem_cons_of_mem _ ht)) _,
+      dotAfter_false _ (fun t ht => hno t (List.mem_cons_of_mem _ ht)) _⟩
+  unfold absParse
+  rw [htok]
+  simp only [bind, Except.bind, List.map_cons, List.map_nil, stripWs_pad4 y hy, stripWs_pad2 m hm, stripWs_pad2 d hdd, stripWs_dash, stripWs_slash, stripWs_space]
   rw [hcls]
   exact C07_order_decides st _ (by simp [allOrders]) hst y m d hd.y1 hd.y2 hd.m1 hd.m2 hd.d1 hd.d2 (pad4c y) (pad2c m) (pad2c d) rfl
     (by simp [pad2c]) (by simp [pad2c]) true true (fun _ => rfl) (fun _ => rfl) (micOf y m d) false
@@ -178,7 +250,7 @@ theorem c07_m_d_y_slash (st : PSettings) (hst : st.order = [.month, .day, .year]
   have d1 : d / 10 < 10 := by omega
   have d2 : d % 10 < 10 := by omega
   have htok : tokenize (renderOrder [.month, .day, .year] '/' y m d) = .ok [(pad2c m, 0), (['/'], 2), (pad2c d, 0), (['/'], 2), (pad4c y, 0)] := by
-    simp [tokenize, tokGo, renderOrder, fieldText, pad4c, pad2c, tkCls_dch, tkCls_dash, tkCls_slash, y1, y2, y3, y4, m1, m2, d1, d2]
+    simp [tokenize, tokGo, renderOrder, fieldText, pad4c, pad2c, tkCls_dch, tkCls_dash, tkCls_slash, tkCls_space, y1, y2, y3, y4, m1, m2, d1, d2]
   have hno : ∀ t ∈ [(pad2c m, 0), (['/'], 2), (pad2c d, 0), (['/'], 2), (pad4c y, 0)], ¬ '.' ∈ (t : List Char × Nat).1 := by
     intro t ht
     simp only [List.mem_cons, List.not_mem_nil, or_false] at ht
@@ -195,7 +267,7 @@ theorem c07_m_d_y_slash (st : PSettings) (hst : st.order = [.month, .day, .year]
       dotAfter_false _ (fun t ht => hno t (List.mem_cons_of_mem _ ht)) _⟩
   unfold absParse
   rw [htok]
-  simp only [bind, Except.bind, List.map_cons, List.map_nil, stripWs_pad4 y hy, stripWs_pad2 m hm, stripWs_pad2 d hdd, stripWs_dash, stripWs_slash]
+  simp only [bind, Except.bind, List.map_cons, List.map_nil, stripWs_pad4 y hy, stripWs_pad2 m hm, stripWs_pad2 d hdd, stripWs_dash, stripWs_slash, stripWs_space]
   rw [hcls]
   exact C07_order_decides st _ (by simp [allOrders]) hst y m d hd.y1 hd.y2 hd.m1 hd.m2 hd.d1 hd.d2 (pad4c y) (pad2c m) (pad2c d) rfl
     (by simp [pad2c]) (by simp [pad2c]) true true (fun _ => rfl) (fun _ => rfl) (micOf y m d) false
@@ -214,7 +286,7 @@ theorem c07_m_d_y_dash (st : PSettings) (hst : st.order = [.month, .day, .year])
   have d1 : d / 10 < 10 := by omega
   have d2 : d % 10 < 10 := by omega
   have htok : tokenize (renderOrder [.month, .day, .year] '-' y m d) = .ok [(pad2c m, 0), (['-'], 2), (pad2c d, 0), (['-'], 2), (pad4c y, 0)] := by
-    simp [tokenize, tokGo, renderOrder, fieldText, pad4c, pad2c, tkCls_dch, tkCls_dash, tkCls_slash, y1, y2, y3, y4, m1, m2, d1, d2]
+    simp [tokenize, tokGo, renderOrder, fieldText, pad4c, pad2c, tkCls_dch, tkCls_dash, tkCls_slash, tkCls_space, y1, y2, y3, y4, m1, m2, d1, d2]
   have hno : ∀ t ∈ [(pad2c m, 0), (['-'], 2), (pad2c d, 0), (['-'], 2), (pad4c y, 0)], ¬ '.' ∈ (t : List Char × Nat).1 := by
     intro t ht
     simp only [List.mem_cons, List.not_mem_nil, or_false] at ht
@@ -231,7 +303,43 @@ theorem c07_m_d_y_dash (st : PSettings) (hst : st.order = [.month, .day, .year])
       dotAfter_false _ (fun t ht => hno t (List.mem_cons_of_mem _ ht)) _⟩
   unfold absParse
   rw [htok]
-  simp only [bind, Except.bind, List.map_cons, List.map_nil, stripWs_pad4 y hy, stripWs_pad2 m hm, stripWs_pad2 d hdd, stripWs_dash, stripWs_slash]
+  simp only [bind, Except.bind, List.map_cons, List.map_nil, stripWs_pad4 y hy, stripWs_pad2 m hm, stripWs_pad2 d hdd, stripWs_dash, stripWs_slash, stripWs_space]
+  rw [hcls]
+  exact C07_order_decides st _ (by simp [allOrders]) hst y m d hd.y1 hd.y2 hd.m1 hd.m2 hd.d1 hd.d2 (pad4c y) (pad2c m) (pad2c d) rfl
+    (by simp [pad2c]) (by simp [pad2c]) true true (fun _ => rfl) (fun _ => rfl) (micOf y m d) false
+
+theorem c07_m_d_y_space (st : PSettings) (hst : st.order = [.month, .day, .year]) (y m d : Nat) (hd : DateOk y m d) :
+    absParse st (renderOrder [.month, .day, .year] ' ' y m d) = .ok ({ y := y, mo := m, d := d }, .day) := by
+  have hy : y ≤ 9999 := hd.y2
+  have hm : m < 100 := by have := hd.m2; omega
+  have hdd : d < 100 := by have := hd.d2; have := dim_le_31 y m; omega
+  have y1 : y / 1000 < 10 := by omega
+  have y2 : y / 100 % 10 < 10 := by omega
+  have y3 : y / 10 % 10 < 10 := by omega
+  have y4 : y % 10 < 10 := by omega
+  have m1 : m / 10 < 10 := by omega
+  have m2 : m % 10 < 10 := by omega
+  have d1 : d / 10 < 10 := by omega
+  have d2 : d % 10 < 10 := by omega
+  have htok : tokenize (renderOrder [.month, .day, .year] ' ' y m d) = .ok [(pad2c m, 0), ([' '], 2), (pad2c d, 0), ([' '], 2), (pad4c y, 0)] := by
+    simp [tokenize, tokGo, renderOrder, fieldText, pad4c, pad2c, tkCls_dch, tkCls_dash, tkCls_slash, tkCls_space, y1, y2, y3, y4, m1, m2, d1, d2]
+  have hno : ∀ t ∈ [(pad2c m, 0), ([], 2), (pad2c d, 0), ([], 2), (pad4c y, 0)], ¬ '.' ∈ (t : List Char × Nat).1 := by
+    intro t ht
+    simp only [List.mem_cons, List.not_mem_nil, or_false] at ht
+    rcases ht with rfl | rfl | rfl | rfl | rfl <;>
+      first | exact dot_pad4 y hy | exact colon_pad2 m hm '.' (by simp) | exact colon_pad2 d hdd '.' (by simp) | simp
+  have hcls : classify #[(pad2c m, 0), ([], 2), (pad2c d, 0), ([], 2), (pad4c y, 0)] =
+      [.month, .day, .year].map (fun c => fieldTI c (pad4c y) (pad2c m) (pad2c d) y m d true true (micOf y m d) false) := by
+    simp [classify, fieldTI, micOf, fieldText, tiYear4, tiSmall, fmt_m, fmt_d, fmt_y, fmt_Y, dirNum_m2, dirNum_d2, dirNum_y2, dirNum_Y2, dirNum_Y4,
+      dirNum_four_none, hy, hm, hdd, List.zipIdx,
+      allAscii_pad4 y hy, natOfAscii_pad4 y hy, micro_pad4 y hy, merid_pad4 y hy, skip_pad4 y hy, colon_pad4 y hy,
+      allAscii_pad2 m hm, natOfAscii_pad2 m hm, micro_pad2 m hm, merid_pad2 m hm, skip_pad2 m hm, colon_pad2 m hm ':' (by simp),
+      allAscii_pad2 d hdd, natOfAscii_pad2 d hdd, micro_pad2 d hdd, merid_pad2 d hdd, skip_pad2 d hdd, colon_pad2 d hdd ':' (by simp)]
+    exact ⟨dotAfter_false _ (fun t ht => hno t (List.mem_cons_of_mem _ ht)) _, dotAfter_false _ (fun t ht => hno t (List.mem_cons_of_mem _ ht)) _,
+      dotAfter_false _ (fun t ht => hno t (List.mem_cons_of_mem _ ht)) _⟩
+  unfold absParse
+  rw [htok]
+  simp only [bind, Except.bind, List.map_cons, List.map_nil, stripWs_pad4 y hy, stripWs_pad2 m hm, stripWs_pad2 d hdd, stripWs_dash, stripWs_slash, stripWs_space]
   rw [hcls]
   exact C07_order_decides st _ (by simp [allOrders]) hst y m d hd.y1 hd.y2 hd.m1 hd.m2 hd.d1 hd.d2 (pad4c y) (pad2c m) (pad2c d) rfl
     (by simp [pad2c]) (by simp [pad2c]) true true (fun _ => rfl) (fun _ => rfl) (micOf y m d) false
@@ -250,7 +358,7 @@ theorem c07_m_y_d_slash (st : PSettings) (hst : st.order = [.month, .year, .day]
   have d1 : d / 10 < 10 := by omega
   have d2 : d % 10 < 10 := by omega
   have htok : tokenize (renderOrder [.month, .year, .day] '/' y m d) = .ok [(pad2c m, 0), (['/'], 2), (pad4c y, 0), (['/'], 2), (pad2c d, 0)] := by
-    simp [tokenize, tokGo, renderOrder, fieldText, pad4c, pad2c, tkCls_dch, tkCls_dash, tkCls_slash, y1, y2, y3, y4, m1, m2, d1, d2]
+    simp [tokenize, tokGo, renderOrder, fieldText, pad4c, pad2c, tkCls_dch, tkCls_dash, tkCls_slash, tkCls_space, y1, y2, y3, y4, m1, m2, d1, d2]
   have hno : ∀ t ∈ [(pad2c m, 0), (['/'], 2), (pad4c y, 0), (['/'], 2), (pad2c d, 0)], ¬ '.' ∈ (t : List Char × Nat).1 := by
     intro t ht
     simp only [List.mem_cons, List.not_mem_nil, or_false] at ht
@@ -267,7 +375,7 @@ theorem c07_m_y_d_slash (st : PSettings) (hst : st.order = [.month, .year, .day]
       dotAfter_false _ (fun t ht => hno t (List.mem_cons_of_mem _ ht)) _⟩
   unfold absParse
   rw [htok]
-  simp only [bind, Except.bind, List.map_cons, List.map_nil, stripWs_pad4 y hy, stripWs_pad2 m hm, stripWs_pad2 d hdd, stripWs_dash, stripWs_slash]
+  simp only [bind, Except.bind, List.map_cons, List.map_nil, stripWs_pad4 y hy, stripWs_pad2 m hm, stripWs_pad2 d hdd, stripWs_dash, stripWs_slash, stripWs_space]
   rw [hcls]
   exact C07_order_decides st _ (by simp [allOrders]) hst y m d hd.y1 hd.y2 hd.m1 hd.m2 hd.d1 hd.d2 (pad4c y) (pad2c m) (pad2c d) rfl
     (by simp [pad2c]) (by simp [pad2c]) true true (fun _ => rfl) (fun _ => rfl) (micOf y m d) false
@@ -286,7 +394,7 @@ theorem c07_m_y_d_dash (st : PSettings) (hst : st.order = [.month, .year, .day])
   have d1 : d / 10 < 10 := by omega
   have d2 : d % 10 < 10 := by omega
   have htok : tokenize (renderOrder [.month, .year, .day] '-' y m d) = .ok [(pad2c m, 0), (['-'], 2), (pad4c y, 0), (['-'], 2), (pad2c d, 0)] := by
-    simp [tokenize, tokGo, renderOrder, fieldText, pad4c, pad2c, tkCls_dch, tkCls_dash, tkCls_slash, y1, y2, y3, y4, m1, m2, d1, d2]
+    simp [tokenize, tokGo, renderOrder, fieldText, pad4c, pad2c, tkCls_dch, tkCls_dash, tkCls_slash, tkCls_space, y1, y2, y3, y4, m1, m2, d1, d2]
   have hno : ∀ t ∈ [(pad2c m, 0), (['-'], 2), (pad4c y, 0), (['-'], 2), (pad2c d, 0)], ¬ '.' ∈ (t : List Char × Nat).1 := by
     intro t ht
     simp only [List.mem_cons, List.not_mem_nil, or_false] at ht
@@ -303,7 +411,43 @@ theorem c07_m_y_d_dash (st : PSettings) (hst : st.order = [.month, .year, .day])
       dotAfter_false _ (fun t ht => hno t (List.mem_cons_of_mem _ ht)) _⟩
   unfold absParse
   rw [htok]
-  simp only [bind, Except.bind, List.map_cons, List.map_nil, stripWs_pad4 y hy, stripWs_pad2 m hm, stripWs_pad2 d hdd, stripWs_dash, stripWs_slash]
+  simp only [bind, Except.bind, List.map_cons, List.map_nil, stripWs_pad4 y hy, stripWs_pad2 m hm, stripWs_pad2 d hdd, stripWs_dash, stripWs_slash, stripWs_space]
+  rw [hcls]
+  exact C07_order_decides st _ (by simp [allOrders]) hst y m d hd.y1 hd.y2 hd.m1 hd.m2 hd.d1 hd.d2 (pad4c y) (pad2c m) (pad2c d) rfl
+    (by simp [pad2c]) (by simp [pad2c]) true true (fun _ => rfl) (fun _ => rfl) (micOf y m d) false
+
+theorem c07_m_y_d_space (st : PSettings) (hst : st.order = [.month, .year, .day]) (y m d : Nat) (hd : DateOk y m d) :
+    absParse st (renderOrder [.month, .year, .day] ' ' y m d) = .ok ({ y := y, mo := m, d := d }, .day) := by
+  have hy : y ≤ 9999 := hd.y2
+  have hm : m < 100 := by have := hd.m2; omega
+  have hdd : d < 100 := by have := hd.d2; have := dim_le_31 y m; omega
+  have y1 : y / 1000 < 10 := by omega
+  have y2 : y / 100 % 10 < 10 := by omega
+  have y3 : y / 10 % 10 < 10 := by omega
+  have y4 : y % 10 < 10 := by omega
+  have m1 : m / 10 < 10 := by omega
+  have m2 : m % 10 < 10 := by omega
+  have d1 : d / 10 < 10 := by omega
+  have d2 : d % 10 < 10 := by omega
+  have htok : tokenize (renderOrder [.month, .year, .day] ' ' y m d) = .ok [(pad2c m, 0), ([' '], 2), (pad4c y, 0), ([' '], 2), (pad2c d, 0)] := by
+    simp [tokenize, tokGo, renderOrder, fieldText, pad4c, pad2c, tkCls_dch, tkCls_dash, tkCls_slash, tkCls_space, y1, y2, y3, y4, m1, m2, d1, d2]
+  have hno : ∀ t ∈ [(pad2c m, 0), ([], 2), (pad4c y, 0), ([], 2), (pad2c d, 0)], ¬ '.' ∈ (t : List Char × Nat).1 := by
+    intro t ht
+    simp only [List.mem_cons, List.not_mem_nil, or_false] at ht
+    rcases ht with rfl | rfl | rfl | rfl | rfl <;>
+      first | exact dot_pad4 y hy | exact colon_pad2 m hm '.' (by simp) | exact colon_pad2 d hdd '.' (by simp) | simp
+  have hcls : classify #[(pad2c m, 0), ([], 2), (pad4c y, 0), ([], 2), (pad2c d, 0)] =
+      [.month, .year, .day].map (fun c => fieldTI c (pad4c y) (pad2c m) (pad2c d) y m d true true (micOf y m d) false) := by
+    simp [classify, fieldTI, micOf, fieldText, tiYear4, tiSmall, fmt_m, fmt_d, fmt_y, fmt_Y, dirNum_m2, dirNum_d2, dirNum_y2, dirNum_Y2, dirNum_Y4,
+      dirNum_four_none, hy, hm, hdd, List.zipIdx,
+      allAscii_pad4 y hy, natOfAscii_pad4 y hy, micro_pad4 y hy, merid_pad4 y hy, skip_pad4 y hy, colon_pad4 y hy,
+      allAscii_pad2 m hm, natOfAscii_pad2 m hm, micro_pad2 m hm, merid_pad2 m hm, skip_pad2 m hm, colon_pad2 m hm ':' (by simp),
+      allAscii_pad2 d hdd, natOfAscii_pad2 d hdd, micro_pad2 d hdd, merid_pad2 d hdd, skip_pad2 d hdd, colon_pad2 d hdd ':' (by simp)]
+    exact ⟨dotAfter_false _ (fun t ht => hno t (List.mem_cons_of_mem _ ht)) _, dotAfter_false _ (fun t ht => hno t (List.mem_cons_of_mem _ ht)) _,
+      dotAfter_false _ (fun t ht => hno t (List.mem_cons_of_mem _ ht)) _⟩
+  unfold absParse
+  rw [htok]
+  simp only [bind, Except.bind, List.map_cons, List.map_nil, stripWs_pad4 y hy, stripWs_pad2 m hm, stripWs_pad2 d hdd, stripWs_dash, stripWs_slash, stripWs_space]
   rw [hcls]
   exact C07_order_decides st _ (by simp [allOrders]) hst y m d hd.y1 hd.y2 hd.m1 hd.m2 hd.d1 hd.d2 (pad4c y) (pad2c m) (pad2c d) rfl
     (by simp [pad2c]) (by simp [pad2c]) true true (fun _ => rfl) (fun _ => rfl) (micOf y m d) false
@@ -322,7 +466,7 @@ theorem c07_y_d_m_slash (st : PSettings) (hst : st.order = [.year, .day, .month]
   have d1 : d / 10 < 10 := by omega
   have d2 : d % 10 < 10 := by omega
   have htok : tokenize (renderOrder [.year, .day, .month] '/' y m d) = .ok [(pad4c y, 0), (['/'], 2), (pad2c d, 0), (['/'], 2), (pad2c m, 0)] := by
-    simp [tokenize, tokGo, renderOrder, fieldText, pad4c, pad2c, tkCls_dch, tkCls_dash, tkCls_slash, y1, y2, y3, y4, m1, m2, d1, d2]
+    simp [tokenize, tokGo, renderOrder, fieldText, pad4c, pad2c, tkCls_dch, tkCls_dash, tkCls_slash, tkCls_space, y1, y2, y3, y4, m1, m2, d1, d2]
   have hno : ∀ t ∈ [(pad4c y, 0), (['/'], 2), (pad2c d, 0), (['/'], 2), (pad2c m, 0)], ¬ '.' ∈ (t : List Char × Nat).1 := by
     intro t ht
     simp only [List.mem_cons, List.not_mem_nil, or_false] at ht
@@ -339,7 +483,7 @@ theorem c07_y_d_m_slash (st : PSettings) (hst : st.order = [.year, .day, .month]
       dotAfter_false _ (fun t ht => hno t (List.mem_cons_of_mem _ ht)) _⟩
   unfold absParse
   rw [htok]
-  simp only [bind, Except.bind, List.map_cons, List.map_nil, stripWs_pad4 y hy, stripWs_pad2 m hm, stripWs_pad2 d hdd, stripWs_dash, stripWs_slash]
+  simp only [bind, Except.bind, List.map_cons, List.map_nil, stripWs_pad4 y hy, stripWs_pad2 m hm, stripWs_pad2 d hdd, stripWs_dash, stripWs_slash, stripWs_space]
   rw [hcls]
   exact C07_order_decides st _ (by simp [allOrders]) hst y m d hd.y1 hd.y2 hd.m1 hd.m2 hd.d1 hd.d2 (pad4c y) (pad2c m) (pad2c d) rfl
     (by simp [pad2c]) (by simp [pad2c]) true true (fun _ => rfl) (fun _ => rfl) (micOf y m d) false
@@ -358,7 +502,7 @@ theorem c07_y_d_m_dash (st : PSettings) (hst : st.order = [.year, .day, .month])
   have d1 : d / 10 < 10 := by omega
   have d2 : d % 10 < 10 := by omega
   have htok : tokenize (renderOrder [.year, .day, .month] '-' y m d) = .ok [(pad4c y, 0), (['-'], 2), (pad2c d, 0), (['-'], 2), (pad2c m, 0)] := by
-    simp [tokenize, tokGo, renderOrder, fieldText, pad4c, pad2c, tkCls_dch, tkCls_dash, tkCls_slash, y1, y2, y3, y4, m1, m2, d1, d2]
+    simp [tokenize, tokGo, renderOrder, fieldText, pad4c, pad2c, tkCls_dch, tkCls_dash, tkCls_slash, tkCls_space, y1, y2, y3, y4, m1, m2, d1, d2]
   have hno : ∀ t ∈ [(pad4c y, 0), (['-'], 2), (pad2c d, 0), (['-'], 2), (pad2c m, 0)], ¬ '.' ∈ (t : List Char × Nat).1 := by
     intro t ht
     simp only [List.mem_cons, List.not_mem_nil, or_false] at ht
@@ -375,7 +519,43 @@ theorem c07_y_d_m_dash (st : PSettings) (hst : st.order = [.year, .day, .month])
       dotAfter_false _ (fun t ht => hno t (List.mem_cons_of_mem _ ht)) _⟩
   unfold absParse
   rw [htok]
-  simp only [bind, Except.bind, List.map_cons, List.map_nil, stripWs_pad4 y hy, stripWs_pad2 m hm, stripWs_pad2 d hdd, stripWs_dash, stripWs_slash]
+  simp only [bind, Except.bind, List.map_cons, List.map_nil, stripWs_pad4 y hy, stripWs_pad2 m hm, stripWs_pad2 d hdd, stripWs_dash, stripWs_slash, stripWs_space]
+  rw [hcls]
+  exact C07_order_decides st _ (by simp [allOrders]) hst y m d hd.y1 hd.y2 hd.m1 hd.m2 hd.d1 hd.d2 (pad4c y) (pad2c m) (pad2c d) rfl
+    (by simp [pad2c]) (by simp [pad2c]) true true (fun _ => rfl) (fun _ => rfl) (micOf y m d) false
+
+theorem c07_y_d_m_space (st : PSettings) (hst : st.order = [.year, .day, .month]) (y m d : Nat) (hd : DateOk y m d) :
+    absParse st (renderOrder [.year, .day, .month] ' ' y m d) = .ok ({ y := y, mo := m, d := d }, .day) := by
+  have hy : y ≤ 9999 := hd.y2
+  have hm : m < 100 := by have := hd.m2; omega
+  have hdd : d < 100 := by have := hd.d2; have := dim_le_31 y m; omega
+  have y1 : y / 1000 < 10 := by omega
+  have y2 : y / 100 % 10 < 10 := by omega
+  have y3 : y / 10 % 10 < 10 := by omega
+  have y4 : y % 10 < 10 := by omega
+  have m1 : m / 10 < 10 := by omega
+  have m2 : m % 10 < 10 := by omega
+  have d1 : d / 10 < 10 := by omega
+  have d2 : d % 10 < 10 := by omega
+  have htok : tokenize (renderOrder [.year, .day, .month] ' ' y m d) = .ok [(pad4c y, 0), ([' '], 2), (pad2c d, 0), ([' '], 2), (pad2c m, 0)] := by
+    simp [tokenize, tokGo, renderOrder, fieldText, pad4c, pad2c, tkCls_dch, tkCls_dash, tkCls_slash, tkCls_space, y1, y2, y3, y4, m1, m2, d1, d2]
+  have hno : ∀ t ∈ [(pad4c y, 0), ([], 2), (pad2c d, 0), ([], 2), (pad2c m, 0)], ¬ '.' ∈ (t : List Char × Nat).1 := by
+    intro t ht
+    simp only [List.mem_cons, List.not_mem_nil, or_false] at ht
+    rcases ht with rfl | rfl | rfl | rfl | rfl <;>
+      first | exact dot_pad4 y hy | exact colon_pad2 m hm '.' (by simp) | exact colon_pad2 d hdd '.' (by simp) | simp
+  have hcls : classify #[(pad4c y, 0), ([], 2), (pad2c d, 0), ([], 2), (pad2c m, 0)] =
+      [.year, .day, .month].map (fun c => fieldTI c (pad4c y) (pad2c m) (pad2c d) y m d true true (micOf y m d) false) := by
+    simp [classify, fieldTI, micOf, fieldText, tiYear4, tiSmall, fmt_m, fmt_d, fmt_y, fmt_Y, dirNum_m2, dirNum_d2, dirNum_y2, dirNum_Y2, dirNum_Y4,
+      dirNum_four_none, hy, hm, hdd, List.zipIdx,
+      allAscii_pad4 y hy, natOfAscii_pad4 y hy, micro_pad4 y hy, merid_pad4 y hy, skip_pad4 y hy, colon_pad4 y hy,
+      allAscii_pad2 m hm, natOfAscii_pad2 m hm, micro_pad2 m hm, merid_pad2 m hm, skip_pad2 m hm, colon_pad2 m hm ':' (by simp),
+      allAscii_pad2 d hdd, natOfAscii_pad2 d hdd, micro_pad2 d hdd, merid_pad2 d hdd, skip_pad2 d hdd, colon_pad2 d hdd ':' (by simp)]
+    exact ⟨dotAfter_false _ (fun t ht => hno t (List.mem_cons_of_mem _ ht)) _, dotAfter_false _ (fun t ht => hno t (List.mem_cons_of_mem _ ht)) _,
+      dotAfter_false _ (fun t ht => hno t (List.mem_cons_of_mem _ ht)) _⟩
+  unfold absParse
+  rw [htok]
+  simp only [bind, Except.bind, List.map_cons, List.map_nil, stripWs_pad4 y hy, stripWs_pad2 m hm, stripWs_pad2 d hdd, stripWs_dash, stripWs_slash, stripWs_space]
   rw [hcls]
   exact C07_order_decides st _ (by simp [allOrders]) hst y m d hd.y1 hd.y2 hd.m1 hd.m2 hd.d1 hd.d2 (pad4c y) (pad2c m) (pad2c d) rfl
     (by simp [pad2c]) (by simp [pad2c]) true true (fun _ => rfl) (fun _ => rfl) (micOf y m d) false
@@ -394,7 +574,7 @@ theorem c07_y_m_d_slash (st : PSettings) (hst : st.order = [.year, .month, .day]
   have d1 : d / 10 < 10 := by omega
   have d2 : d % 10 < 10 := by omega
   have htok : tokenize (renderOrder [.year, .month, .day] '/' y m d) = .ok [(pad4c y, 0), (['/'], 2), (pad2c m, 0), (['/'], 2), (pad2c d, 0)] := by
-    simp [tokenize, tokGo, renderOrder, fieldText, pad4c, pad2c, tkCls_dch, tkCls_dash, tkCls_slash, y1, y2, y3, y4, m1, m2, d1, d2]
+    simp [tokenize, tokGo, renderOrder, fieldText, pad4c, pad2c, tkCls_dch, tkCls_dash, tkCls_slash, tkCls_space, y1, y2, y3, y4, m1, m2, d1, d2]
   have hno : ∀ t ∈ [(pad4c y, 0), (['/'], 2), (pad2c m, 0), (['/'], 2), (pad2c d, 0)], ¬ '.' ∈ (t : List Char × Nat).1 := by
     intro t ht
     simp only [List.mem_cons, List.not_mem_nil, or_false] at ht
@@ -411,7 +591,7 @@ theorem c07_y_m_d_slash (st : PSettings) (hst : st.order = [.year, .month, .day]
       dotAfter_false _ (fun t ht => hno t (List.mem_cons_of_mem _ ht)) _⟩
   unfold absParse
   rw [htok]
-  simp only [bind, Except.bind, List.map_cons, List.map_nil, stripWs_pad4 y hy, stripWs_pad2 m hm, stripWs_pad2 d hdd, stripWs_dash, stripWs_slash]
+  simp only [bind, Except.bind, List.map_cons, List.map_nil, stripWs_pad4 y hy, stripWs_pad2 m hm, stripWs_pad2 d hdd, stripWs_dash, stripWs_slash, stripWs_space]
   rw [hcls]
   exact C07_order_decides st _ (by simp [allOrders]) hst y m d hd.y1 hd.y2 hd.m1 hd.m2 hd.d1 hd.d2 (pad4c y) (pad2c m) (pad2c d) rfl
     (by simp [pad2c]) (by simp [pad2c]) true true (fun _ => rfl) (fun _ => rfl) (micOf y m d) false
@@ -430,7 +610,7 @@ theorem c07_y_m_d_dash (st : PSettings) (hst : st.order = [.year, .month, .day])
   have d1 : d / 10 < 10 := by omega
   have d2 : d % 10 < 10 := by omega
   have htok : tokenize (renderOrder [.year, .month, .day] '-' y m d) = .ok [(pad4c y, 0), (['-'], 2), (pad2c m, 0), (['-'], 2), (pad2c d, 0)] := by
-    simp [tokenize, tokGo, renderOrder, fieldText, pad4c, pad2c, tkCls_dch, tkCls_dash, tkCls_slash, y1, y2, y3, y4, m1, m2, d1, d2]
+    simp [tokenize, tokGo, renderOrder, fieldText, pad4c, pad2c, tkCls_dch, tkCls_dash, tkCls_slash, tkCls_space, y1, y2, y3, y4, m1, m2, d1, d2]
   have hno : ∀ t ∈ [(pad4c y, 0), (['-'], 2), (pad2c m, 0), (['-'], 2), (pad2c d, 0)], ¬ '.' ∈ (t : List Char × Nat).1 := by
     intro t ht
     simp only [List.mem_cons, List.not_mem_nil, or_false] at ht
@@ -447,18 +627,54 @@ theorem c07_y_m_d_dash (st : PSettings) (hst : st.order = [.year, .month, .day])
       dotAfter_false _ (fun t ht => hno t (List.mem_cons_of_mem _ ht)) _⟩
   unfold absParse
   rw [htok]
-  simp only [bind, Except.bind, List.map_cons, List.map_nil, stripWs_pad4 y hy, stripWs_pad2 m hm, stripWs_pad2 d hdd, stripWs_dash, stripWs_slash]
+  simp only [bind, Except.bind, List.map_cons, List.map_nil, stripWs_pad4 y hy, stripWs_pad2 m hm, stripWs_pad2 d hdd, stripWs_dash, stripWs_slash, stripWs_space]
   rw [hcls]
   exact C07_order_decides st _ (by simp [allOrders]) hst y m d hd.y1 hd.y2 hd.m1 hd.m2 hd.d1 hd.d2 (pad4c y) (pad2c m) (pad2c d) rfl
     (by simp [pad2c]) (by simp [pad2c]) true true (fun _ => rfl) (fun _ => rfl) (micOf y m d) false
 
-/-- **C07_order_string**: for each of the six DATE_ORDER values `O` in force and both separators, a valid date whose fields are written
+theorem c07_y_m_d_space (st : PSettings) (hst : st.order = [.year, .month, .day]) (y m d : Nat) (hd : DateOk y m d) :
+    absParse st (renderOrder [.year, .month, .day] ' ' y m d) = .ok ({ y := y, mo := m, d := d }, .day) := by
+  have hy : y ≤ 9999 := hd.y2
+  have hm : m < 100 := by have := hd.m2; omega
+  have hdd : d < 100 := by have := hd.d2; have := dim_le_31 y m; omega
+  have y1 : y / 1000 < 10 := by omega
+  have y2 : y / 100 % 10 < 10 := by omega
+  have y3 : y / 10 % 10 < 10 := by omega
+  have y4 : y % 10 < 10 := by omega
+  have m1 : m / 10 < 10 := by omega
+  have m2 : m % 10 < 10 := by omega
+  have d1 : d / 10 < 10 := by omega
+  have d2 : d % 10 < 10 := by omega
+  have htok : tokenize (renderOrder [.year, .month, .day] ' ' y m d) = .ok [(pad4c y, 0), ([' '], 2), (pad2c m, 0), ([' '], 2), (pad2c d, 0)] := by
+    simp [tokenize, tokGo, renderOrder, fieldText, pad4c, pad2c, tkCls_dch, tkCls_dash, tkCls_slash, tkCls_space, y1, y2, y3, y4, m1, m2, d1, d2]
+  have hno : ∀ t ∈ [(pad4c y, 0), ([], 2), (pad2c m, 0), ([], 2), (pad2c d, 0)], ¬ '.' ∈ (t : List Char × Nat).1 := by
+    intro t ht
+    simp only [List.mem_cons, List.not_mem_nil, or_false] at ht
+    rcases ht with rfl | rfl | rfl | rfl | rfl <;>
+      first | exact dot_pad4 y hy | exact colon_pad2 m hm '.' (by simp) | exact colon_pad2 d hdd '.' (by simp) | simp
+  have hcls : classify #[(pad4c y, 0), ([], 2), (pad2c m, 0), ([], 2), (pad2c d, 0)] =
+      [.year, .month, .day].map (fun c => fieldTI c (pad4c y) (pad2c m) (pad2c d) y m d true true (micOf y m d) false) := by
+    simp [classify, fieldTI, micOf, fieldText, tiYear4, tiSmall, fmt_m, fmt_d, fmt_y, fmt_Y, dirNum_m2, dirNum_d2, dirNum_y2, dirNum_Y2, dirNum_Y4,
+      dirNum_four_none, hy, hm, hdd, List.zipIdx,
+      allAscii_pad4 y hy, natOfAscii_pad4 y hy, micro_pad4 y hy, merid_pad4 y hy, skip_pad4 y hy, colon_pad4 y hy,
+      allAscii_pad2 m hm, natOfAscii_pad2 m hm, micro_pad2 m hm, merid_pad2 m hm, skip_pad2 m hm, colon_pad2 m hm ':' (by simp),
+      allAscii_pad2 d hdd, natOfAscii_pad2 d hdd, micro_pad2 d hdd, merid_pad2 d hdd, skip_pad2 d hdd, colon_pad2 d hdd ':' (by simp)]
+    exact ⟨dotAfter_false _ (fun t ht => hno t (List.mem_cons_of_mem _ ht)) _, dotAfter_false _ (fun t ht => hno t (List.mem_cons_of_mem _ ht)) _,
+      dotAfter_false _ (fun t ht => hno t (List.mem_cons_of_mem _ ht)) _⟩
+  unfold absParse
+  rw [htok]
+  simp only [bind, Except.bind, List.map_cons, List.map_nil, stripWs_pad4 y hy, stripWs_pad2 m hm, stripWs_pad2 d hdd, stripWs_dash, stripWs_slash, stripWs_space]
+  rw [hcls]
+  exact C07_order_decides st _ (by simp [allOrders]) hst y m d hd.y1 hd.y2 hd.m1 hd.m2 hd.d1 hd.d2 (pad4c y) (pad2c m) (pad2c d) rfl
+    (by simp [pad2c]) (by simp [pad2c]) true true (fun _ => rfl) (fun _ => rfl) (micOf y m d) false
+
+/-- **C07_order_string**: for each of the six DATE_ORDER values `O` in force and the separators `/`, `-` and space, a valid date whose fields are written
     in the order `O` (two-digit day and month, four-digit year) is read as exactly that date — the whole absolute parser, from the characters. -/
-theorem C07_order_string (st : PSettings) (O : List Comp) (hO : O ∈ allOrders) (hst : st.order = O) (sep : Char) (hsep : sep = '/' ∨ sep = '-')
+theorem C07_order_string (st : PSettings) (O : List Comp) (hO : O ∈ allOrders) (hst : st.order = O) (sep : Char) (hsep : sep = '/' ∨ sep = '-' ∨ sep = ' ')
     (y m d : Nat) (hd : DateOk y m d) :
     absParse st (renderOrder O sep y m d) = .ok ({ y := y, mo := m, d := d }, .day) := by
   simp only [allOrders, List.mem_cons, List.mem_nil_iff, or_false] at hO
-  rcases hsep with rfl | rfl <;> rcases hO with rfl | rfl | rfl | rfl | rfl | rfl
+  rcases hsep with rfl | rfl | rfl <;> rcases hO with rfl | rfl | rfl | rfl | rfl | rfl
   · exact c07_d_m_y_slash st hst y m d hd
   · exact c07_d_y_m_slash st hst y m d hd
   · exact c07_m_d_y_slash st hst y m d hd
@@ -471,5 +687,11 @@ theorem C07_order_string (st : PSettings) (O : List Comp) (hO : O ∈ allOrders)
   · exact c07_m_y_d_dash st hst y m d hd
   · exact c07_y_d_m_dash st hst y m d hd
   · exact c07_y_m_d_dash st hst y m d hd
+  · exact c07_d_m_y_space st hst y m d hd
+  · exact c07_d_y_m_space st hst y m d hd
+  · exact c07_m_d_y_space st hst y m d hd
+  · exact c07_m_y_d_space st hst y m d hd
+  · exact c07_y_d_m_space st hst y m d hd
+  · exact c07_y_m_d_space st hst y m d hd
 
 end DP
